@@ -32,6 +32,7 @@ type Obligation struct {
 	Script2   string // fallback (toleranced) form, tried when the exact form is not unsat
 	Vars2     map[string]Sort
 	UsedTol   bool
+	Hunt      bool
 }
 
 type Interp struct {
@@ -88,6 +89,8 @@ type Interp struct {
 	tier      string
 	feasCache map[string]bool
 	pruneAll  bool
+	huntNext    bool
+	pendingHunt []int
 }
 
 type accEntry struct {
@@ -273,7 +276,7 @@ func (in *Interp) obligation(label, kind string, cond *Term) {
 	// the whole path condition: guards of unpruned arms may be infeasible on their own, and a
 	// counterexample must give a value to every harness symbol to be replayable
 	q := append(in.pc(), neg)
-	ob := &Obligation{Harness: in.harness, Label: label, Kind: kind, Site: in.site(in.curInstr()), PathID: in.pathID}
+	ob := &Obligation{Harness: in.harness, Label: label, Kind: kind, Site: in.site(in.curInstr()), PathID: in.pathID, Hunt: in.huntNext}
 	in.fillScript(ob, q)
 	in.emit(ob)
 	if kind != "assert" {
@@ -318,6 +321,12 @@ func (in *Interp) fillScript(ob *Obligation, q []*Term) {
 
 // implicit obligation (bounds, nil, div by zero, explicit panic)
 func (in *Interp) implicitFail(what string, okCond *Term) {
+	if in.summaries["NoImplicit"] {
+		// this harness decides its named assertions only; panics are assumed away here and are the
+		// business of its sibling harness (stated in its doc)
+		in.assume(okCond)
+		return
+	}
 	in.obligation("no-panic:"+what, "implicit", okCond)
 }
 
@@ -485,6 +494,10 @@ func computeIPDom(fn *ssa.Function, fi *funcInfo) {
 				}
 			}
 		}
+	}
+	fi.canReturn = map[*ssa.BasicBlock]bool{}
+	for i := 0; i < nb; i++ {
+		fi.canReturn[fn.Blocks[i]] = canReach[i]
 	}
 	// post-dominator sets via iterative dataflow (functions are small)
 	full := make([]bool, nb+1)
@@ -658,7 +671,10 @@ func computeSCC(fn *ssa.Function, fi *funcInfo) {
 	fi.scc = map[*ssa.BasicBlock]int{}
 	fi.prune = map[*ssa.BasicBlock]bool{}
 	fi.backedge = map[[2]int]bool{}
+	fi.exitSucc = map[*ssa.BasicBlock]int{}
 	var loops []map[*ssa.BasicBlock]bool
+	var loopHeaders []*ssa.BasicBlock
+	fi.exitHeader = map[*ssa.BasicBlock]*ssa.BasicBlock{}
 	for _, t := range fn.Blocks {
 		for _, h := range t.Succs {
 			if !h.Dominates(t) {
@@ -679,18 +695,40 @@ func computeSCC(fn *ssa.Function, fi *funcInfo) {
 				}
 			}
 			loops = append(loops, body)
+			loopHeaders = append(loopHeaders, h)
 		}
 	}
+	type loopT struct {
+		h    *ssa.BasicBlock
+		body map[*ssa.BasicBlock]bool
+	}
+	_ = loopT{}
 	for _, b := range fn.Blocks {
 		if len(b.Succs) != 2 {
 			continue
 		}
 		J := fi.ipdom[b]
+		bestSize := -1
 		for i, L := range loops {
-			if L[b] {
-				fi.scc[b] = i + 1
-				if J == nil || !L[J] {
-					fi.prune[b] = true
+			if !L[b] {
+				continue
+			}
+			fi.scc[b] = i + 1
+			if J == nil || !L[J] {
+				fi.prune[b] = true
+			}
+			// a side that leaves the loop and can still reach a return is a loop exit
+			in0, in1 := L[b.Succs[0]], L[b.Succs[1]]
+			if in0 != in1 && (bestSize < 0 || len(L) < bestSize) {
+				out := b.Succs[0]
+				side := 0
+				if in0 {
+					out, side = b.Succs[1], 1
+				}
+				if fi.canReturn[out] {
+					bestSize = len(L)
+					fi.exitSucc[b] = side
+					fi.exitHeader[b] = loopHeaders[i]
 				}
 			}
 		}
